@@ -157,10 +157,33 @@ type ewCase struct {
 	layB   string
 	vs     string
 	strict bool // C06/C11/C12: a refusal of a deliverable input is a violation
+	wide   bool // TSt/StT: the scalar tensor is a ONE-element view with a wider storage window (p[0:3:3])
 }
 
 func (c ewCase) id(prop string) string {
-	return fmt.Sprintf("%s|%s|%s|%s|%s|a=%s|b=%s|%s|%s|%s|%s", prop, c.op, c.d.Name, c.form, shapeStr(c.shape), c.layA, c.layB, c.vs, c.api, c.mode, c.kind)
+	form := c.form
+	if c.wide {
+		form += ":w"
+	}
+	return fmt.Sprintf("%s|%s|%s|%s|%s|a=%s|b=%s|%s|%s|%s|%s", prop, c.op, c.d.Name, form, shapeStr(c.shape), c.layA, c.layB, c.vs, c.api, c.mode, c.kind)
+}
+
+// scalarTensor builds the scalar operand as a tensor: a plain rank-0 tensor, or (wide) a scalar-shaped view that selects
+// one element of a longer vector through a stepped range, so that its storage window holds more than its one element.
+func scalarTensor(d ref.DT, sv interface{}, wide bool) *tensor.Dense {
+	if !wide {
+		return tensor.New(tensor.FromScalar(sv))
+	}
+	back := d.MakeSlice(3)
+	ref.SliceSet(back, 0, sv)
+	ref.SliceSet(back, 1, atlas.Poison(d, 1))
+	ref.SliceSet(back, 2, atlas.Poison(d, 2))
+	p := tensor.New(tensor.WithShape(3), tensor.WithBacking(back))
+	v, err := p.Slice(tensor.S(0, 3, 3))
+	if err != nil {
+		panic(err)
+	}
+	return v.(*tensor.Dense)
 }
 
 func overlaps(t *tensor.Dense, root interface{}) bool {
@@ -382,10 +405,10 @@ func ewExec(r *core.Run, c ewCase) (*core.Fail, string) {
 			case "ST":
 				res, e = binFns[c.op](sv, B.T, opts...)
 			case "TSt":
-				scalarT = tensor.New(tensor.FromScalar(sv))
+				scalarT = scalarTensor(d, sv, c.wide)
 				res, e = binFns[c.op](A.T, scalarT, opts...)
 			case "StT":
-				scalarT = tensor.New(tensor.FromScalar(sv))
+				scalarT = scalarTensor(d, sv, c.wide)
 				res, e = binFns[c.op](scalarT, B.T, opts...)
 			}
 		}
